@@ -224,6 +224,9 @@ func (e *execState) addrOf(i int) string {
 
 func (e *execState) buildMsg(m *Msg) sdk.Msg {
 	who := e.addrOf(m.Who)
+	if m.Upper {
+		who = strings.ToUpper(who)
+	}
 	switch m.Kind {
 	case KCreateFixed:
 		return &types.MsgCreateFixedPriceAuction{Auctioneer: who, StartPrice: sdkmath.LegacyMustNewDecFromStr(m.StartPrice), SellingCoin: toSdkCoin(m.SellingCoin),
@@ -265,6 +268,9 @@ func (e *execState) applyOpImpl(n *Node, idx int, op *Op) error {
 				addr := en.RawAddr
 				if en.Who >= 0 {
 					addr = e.addrOf(en.Who)
+					if en.Upper {
+						addr = strings.ToUpper(addr)
+					}
 				}
 				amt, ok := sdkmath.NewIntFromString(en.Max)
 				if !ok {
